@@ -6,6 +6,7 @@ import (
 	"os"
 	"runtime"
 	"strconv"
+	"strings"
 	"sync"
 	"testing"
 
@@ -15,6 +16,7 @@ import (
 	"pgregory.net/rapid"
 
 	"verif/harness/gen"
+	"verif/harness/ref"
 )
 
 // C09: one compiled bundle is rendered from many goroutines at once. The
@@ -54,10 +56,35 @@ type c09Target struct {
 }
 
 // runC09 exercises one case; returns a description of the first output mismatch.
+// c09Builtins is a template that calls every built-in function and print directive with fixed
+// arguments (whatever state a built-in keeps is shared by all renders of the process).
+const c09Builtins = `
+/** */
+{template .zzBuiltins}
+{let $ks: keys(['a': 1]) /}{let $am: augmentMap(['a': 1], ['b': 2]) /}
+{randomInt(1)}{randomInt(1) + randomInt(1)}{length([1, 2])}{$ks[0]}{round(2.4)}{round(3.14159, 2)}{floor(1.5)}{ceiling(1.2)}
+{min(1, 2)}{max(1.5, 2)}{strContains('abc', 'b')}{isNonnull(1)}{$am.b}
+{foreach $i in range(1, 7, 2)}{$i}{index($i)}{isFirst($i)}{isLast($i)}{/foreach}{hasData()}
+{'<a b>'|escapeHtml}{'a b&c'|escapeUri}{'it\'s'|escapeJsString}{'a\nb'|changeNewlineToBr}{'abcdefghij'|insertWordBreaks:3}{'abcdefghij'|truncate:5}{['k': [1, 'x']]|json}{'<i>'|noAutoescape}{'<i>'|id}
+{css base}{msg desc="d"}Hello <b>{randomInt(1)}</b>{/msg}
+{/template}
+`
+
 func runC09(c C09Case, rounds int, rec *recorder) error {
 	names, srcs := gen.Sources(&c.Prog.Prog)
+	if len(srcs) > 0 {
+		srcs[0] += c09Builtins
+		if c.Prog.AllData == nil {
+			c.Prog.AllData = map[string]map[string]ref.Value{}
+		}
+		c.Prog.AllData[c.Prog.Prog.Files[0].Namespace+".zzBuiltins"] = nil
+	}
 	cb, err, pn := compileBundle(names, srcs, c.Prog.Prog.Globals)
 	if err != nil || pn != nil {
+		if strings.Contains(fmt.Sprint(err, pn), "zzBuiltins") {
+			fmt.Printf("INFRA: the harness's own template of built-ins does not compile: %v %v\n", err, pn)
+			os.Exit(2)
+		}
 		return nil // not this property's matter
 	}
 	_ = cb
@@ -191,6 +218,14 @@ func TestC09(t *testing.T) {
 	}
 	rec := newRecorder("C09")
 	defer rec.flush()
+	// the harness's own template must compile and render, or every case would silently lose it
+	if cb, err, pn := compileBundle([]string{"zz.soy"}, []string{"{namespace zz}\n" + c09Builtins}, nil); err != nil || pn != nil {
+		fmt.Printf("INFRA: the harness's own template of built-ins does not compile: %v %v\n", err, pn)
+		os.Exit(2)
+	} else if rr := cb.render("zz.zzBuiltins", nil, nil, false); rr.err != nil || rr.panicked != nil {
+		fmt.Printf("INFRA: the harness's own template of built-ins does not render: %v %v\n", rr.err, rr.panicked)
+		os.Exit(2)
+	}
 	seed, _ := strconv.Atoi(os.Getenv("VERIF_SEED"))
 	sh, _ := strconv.Atoi(shard())
 	nb := scale(4, 12)
